@@ -17,14 +17,61 @@ type C09Case struct {
 	FileID    string   `json:"file_id"`
 	File      string   `json:"file"`
 	Packaging string   `json:"packaging"` // one | multi-p | P-list | stdin | mixed | api
+	// Big (family "big"): a patch file of this many changes, old<k>(x) -> new<k>(x) each; the file uses the first,
+	// a middle and the last of them. One run with all of them equals the three single-change runs that apply.
+	Big int `json:"big,omitempty"`
+}
+
+// c09RunBig: the size of a patch file does not matter (no change is lost beyond some buffer or limit).
+func c09RunBig(env *core.Env, c *C09Case) core.Outcome {
+	o := core.Outcome{Nontrivial: true, Class: fmt.Sprintf("big=%d", c.Big), Transitions: 1}
+	var b strings.Builder
+	for k := 0; k < c.Big; k++ {
+		fmt.Fprintf(&b, "@@\nvar x expression\n@@\n-old%05d(x)\n+new%05d(x)\n\n", k, k)
+	}
+	ptext := b.String()
+	mid := c.Big / 2
+	file := fmt.Sprintf("package p\n\nfunc f() {\n\told%05d(1)\n\told%05d(2)\n\told%05d(3)\n}\n", 0, mid, c.Big-1)
+	want := fmt.Sprintf("package p\n\nfunc f() {\n\tnew%05d(1)\n\tnew%05d(2)\n\tnew%05d(3)\n}\n", 0, mid, c.Big-1)
+	got, errText := "", ""
+	switch c.Packaging {
+	case "api":
+		pf, err := patch.Parse("big.patch", []byte(ptext))
+		if err != nil {
+			errText = err.Error()
+			break
+		}
+		out, err := pf.Apply("a.go", []byte(file))
+		if err != nil {
+			errText = err.Error()
+		}
+		got = string(out)
+	default:
+		sb := newSandbox(env, "c09big", map[string]string{"t/a.go": file, "big.patch": ptext})
+		defer sb.remove()
+		args, stdin := []string{"-p", sb.path("big.patch"), "a.go"}, ""
+		if c.Packaging == "stdin" {
+			args, stdin = []string{"a.go"}, ptext
+		}
+		r := sb.run(true, "t", args, stdin)
+		if r.Panic != "" || r.Exit != 0 {
+			errText = fmt.Sprintf("exit %d %s %s", r.Exit, r.Panic, firstN(r.Stderr, 300))
+		}
+		got = sb.read("t/a.go")
+	}
+	if errText != "" || got != want {
+		o.FindingKey = "C09:big-patch-differs/" + c.Packaging
+		o.Violation = fmt.Sprintf("[patch file of %d changes, %d bytes, packaging %s] the run does not equal the runs of the three changes that apply (error %q):\n got  %q\n want %q", c.Big, len(ptext), c.Packaging, errText, got, want)
+	}
+	return o
 }
 
 func init() {
 	core.Register(&core.Property{
 		ID:    "C09",
 		Level: "model_checking",
-		Rule: "universe = all sequences of length 2 and 3 (thorough: also length 4 over the 8 most interacting changes) over a catalogue of 23 interacting changes (a change that adds an import with its first use and one guarded by that import, an unwrapping change and one with a repeated metavariable meeting original and introduced code, a change that copies captured code to a later place and one that matches both levels of the result, an import-guarded change on a file where a parameter shadows the package name, a deletion of a statement that contains a comment group, a change that uses the metavariable names of the others as ordinary names, B matches only A's output, duplication, consumption of what a later change needs, no-ops, a change failing with an unbound '+' metavariable, a change whose result alone is unparseable, statement/declaration/import changes; repetitions allowed) x 13 files x packaging {one patch file, repeated -p (same path for a repeated change), -P list, -P list with blank lines and without final newline, stdin, -p mixed with -P, library API}. " +
-			"Differential oracle without model: the combined run's result is canonically identical to the chain of single-change runs, each on the bytes the previous one produced; a failing step makes the combined run exit non-zero and leave the file byte-identical. non-trivial = at least two changes of the history apply in the chain",
+		Rule: "universe = all sequences of length 2 and 3 (thorough: also length 4 over the 8 most interacting changes) over a catalogue of 25 interacting changes (a change that renames an import and one that names it under the new name, a change that adds an import with its first use and one guarded by that import, an unwrapping change and one with a repeated metavariable meeting original and introduced code, a change that copies captured code to a later place and one that matches both levels of the result, an import-guarded change on a file where a parameter shadows the package name, a deletion of a statement that contains a comment group, a change that uses the metavariable names of the others as ordinary names, B matches only A's output, duplication, consumption of what a later change needs, no-ops, a change failing with an unbound '+' metavariable, a change whose result alone is unparseable, statement/declaration/import changes; repetitions allowed) x 14 files x packaging {one patch file, repeated -p (same path for a repeated change), -P list, -P list with blank lines and without final newline, stdin, -p mixed with -P, library API}. " +
+			"Family big: one patch file of 1400 / 22000 (thorough 88000) changes (70 KiB / 1.1 MiB / 4.2 MiB) through -p, stdin and the library. Differential oracle without model: the combined run's result is canonically identical to the chain of single-change runs, each on the bytes the previous one produced; a failing step makes the combined run exit non-zero and leave the file byte-identical. non-trivial = at least two changes of the history apply in the chain",
 		Assumptions: []string{"histories in which a chain step fails only because its intermediate text does not parse, while the combined run reaches a parseable result, are enumerated but excluded from the verdict"},
 		Bounds: func(tier string) map[string]any {
 			return map[string]any{"changes": len(c09Order), "max_len": c09MaxLen(tier)}
@@ -43,7 +90,7 @@ func c09MaxLen(tier string) int {
 	return 3
 }
 
-var c09Order = []string{"A", "B", "C", "D", "E", "F", "G", "H", "I", "J", "K", "L", "M", "N", "O", "Q", "R", "S", "T", "U", "V", "W", "X"}
+var c09Order = []string{"A", "B", "C", "D", "E", "F", "G", "H", "I", "J", "K", "L", "M", "N", "O", "Q", "R", "S", "T", "U", "V", "W", "X", "Y", "Z"}
 
 func c09Changes() map[string]*model.Change {
 	xm := []model.MetaVar{{Name: "x", Kind: "expression"}}
@@ -78,6 +125,9 @@ func c09Changes() map[string]*model.Change {
 		// W unwraps; X has a repeated metavariable whose two occurrences then meet original and introduced code
 		"W": {Name: "W", Kind: "expr", Meta: xm, Lines: model.L("-wrap(x)", "+x")},
 		"X": {Name: "X", Kind: "expr", Meta: xm, Lines: model.L("-pair(x, x)", "+single(x)")},
+		// Y renames the name of an import; Z is a later change that names the import under its new name
+		"Y": {Name: "Y", Kind: "expr", Meta: xm, Imports: []model.Import{{Tag: "-", Name: "foo", Path: "pk/bar"}, {Tag: "+", Name: "baz", Path: "pk/bar"}}, Lines: model.L("-foo.F(x)", "+baz.F(x)")},
+		"Z": {Name: "Z", Kind: "expr", Meta: xm, Imports: []model.Import{{Tag: "-", Name: "baz", Path: "pk/bar"}, {Tag: "+", Path: "pk/qux"}}, Lines: model.L("-baz.F(x)", "+qux.F(x)")},
 		"N": {Name: "N", Kind: "expr", Meta: xm, Imports: []model.Import{{Tag: "+", Path: "new/q"}}, Lines: model.L("-b1(x)", "+q.B1(x)")},
 	}
 }
@@ -93,12 +143,23 @@ var c09Files = [][2]string{
 	{"closer", "package p\n\nfunc g() {\n\ta1(1)\n\tx.Close(v)\n\tother.Close(w)\n}\n"},
 	{"commented", "package p\n\nfunc f1() {\n\tsetup0()\n\tdebug(func() {\n\t\t// inner comment\n\t\twork()\n\t})\n\tv := a1(1) // first\n\t// own line\n\tmid() /* inner */\n\tuse(v) // last\n\ta1(2) // keep\n\tb1(3)\n}\n\n// doc of g\nfunc g() {\n\tc1(4, 4) // pair\n}\n"},
 	{"wraps", "package p\n\nimport \"pk/foo\"\n\nfunc f1(foo T) {\n\tfirst(wrap(1))\n\tmid()\n\tlast()\n\tuse(a1(foo.Bar()))\n\t_ = foo.Bar()\n}\n"},
+	{"renamed", "package p\n\nimport foo \"pk/bar\" // why\n\nfunc f1() {\n\tfoo.F(1)\n\ta1(2)\n}\n"},
 	{"timed", "package p\n\nimport \"fmt\"\n\nfunc g() {\n\tfmt.Println(now())\n\ta1(1)\n}\n"},
 	{"pairs", "package p\n\nfunc f1(v int) {\n\tpair(v, wrap(v))\n\tpair(wrap(v.w), v.w)\n\ta1(v)\n}\n"},
 	{"nested", "package p\n\nvar _ = a1(a1(1))\n\nfunc f2() {\n\tb1(2)\n}\n"},
 }
 
 func c09Gen(tier string, emit func(any)) {
+	// big: patch files beyond the usual buffer sizes (64 KiB, 1 MiB; thorough 4 MiB)
+	sizes := []int{1400, 22000}
+	if tier == "thorough" {
+		sizes = append(sizes, 88000)
+	}
+	for _, n := range sizes {
+		for _, p := range []string{"one", "stdin", "api"} {
+			emit(&C09Case{Big: n, Packaging: p})
+		}
+	}
 	packagings := []string{"one", "multi-p", "P-list", "stdin", "mixed", "api", "P-list-odd"}
 	for _, s := range seqs(c09Order, c09MaxLen(tier)) {
 		if len(s) < 2 {
@@ -125,6 +186,8 @@ func c09Gen(tier string, emit func(any)) {
 				newer, written["commented"], written["wraps"] = true, true, true
 			case strings.Contains("UV", id):
 				newer, written["timed"] = true, true
+			case strings.Contains("YZ", id):
+				newer, written["renamed"] = true, true
 			case strings.Contains("WX", id):
 				newer, written["pairs"], written["wraps"] = true, true, true
 			}
@@ -185,6 +248,9 @@ func c09Single(env *core.Env, id string, input string) c09Step {
 
 func c09Run(env *core.Env, ci any) core.Outcome {
 	c := ci.(*C09Case)
+	if c.Big > 0 {
+		return c09RunBig(env, c)
+	}
 	changes := c09Changes()
 	o := core.Outcome{}
 	bad := func(key, format string, a ...any) core.Outcome {
